@@ -102,7 +102,11 @@ func main() {
 	}
 	lib.ParallelMap(len(cases), runtime.NumCPU(), func(i int) {
 		g := cases[i]
-		opts := baseEnv()
+		colls := map[string]system.Collection{
+			"ints":  {system.Integer(1), system.Integer(2), system.Integer(2), system.Integer(3)},
+			"mixed": {system.Integer(1), system.String("a"), system.MustParseDecimal("1.0"), system.Integer(2), system.String("a")},
+			"none":  {},
+		}
 		if len(g.Dspec) > 0 || containsVar(g.Text, "%d") {
 			c1 := focusItems(g.Ftxt, mr1)
 			var c4 system.Collection
@@ -124,13 +128,18 @@ func main() {
 					d = append(d, valueOf(tk.Item))
 				}
 			}
-			opts = append(opts, evalopts.EnvVariable("d", d))
+			colls["d"] = d
+		}
+		opts := []fhirpath.EvaluateOption{}
+		for name, c := range colls {
+			opts = append(opts, evalopts.EnvVariable(name, c))
 		}
 		if containsVar(g.Text, "%n") {
 			opts = append(opts, evalopts.EnvVariable("n", system.Integer(g.N)))
 		}
+		snap := lib.TakeSnapshot([]proto.Message{mr1, mr4}, colls)
 		out := lib.EvalOutcome(forest, g.Text, lib.AsResources(mr1), nil, opts)
-		if err := w.Write(map[string]any{"id": g.ID, "cs": g.Cs, "src": g.Text, "out": out}); err != nil {
+		if err := w.Write(map[string]any{"id": g.ID, "cs": g.Cs, "src": g.Text, "out": out, "kind": "prog", "mut": snap.Report()}); err != nil {
 			lib.Fatal("%v", err)
 		}
 	})
